@@ -100,10 +100,51 @@ def to_native(doc, ver, clsname, mode, depth=0):
     return out
 
 
+TOPLEVEL_EXT_ID = "extension-definition--a1b2c3d4-0000-4000-8000-00000000c001"
+_registered = [False]
+
+
+def ensure_custom():
+    """Custom types registered by the harness (C01 covers registered custom content too; C19 covers registration itself)."""
+    if _registered[0]:
+        return
+    import stix2
+    from stix2 import properties as P
+    props = [("prop_str", P.StringProperty(required=True)), ("prop_int", P.IntegerProperty()), ("prop_float", P.FloatProperty()),
+             ("prop_ts", P.TimestampProperty()), ("prop_list", P.ListProperty(P.StringProperty)), ("prop_dict", P.DictionaryProperty(spec_version="2.1")),
+             ("prop_bool", P.BooleanProperty(default=lambda: False))]
+
+    @stix2.v21.CustomObject("x-verif-c01obj", props)
+    class C01Obj(object):
+        pass
+
+    @stix2.v20.CustomObject("x-verif-c01obj20", [("prop_str", P.StringProperty(required=True)), ("prop_int", P.IntegerProperty()), ("prop_ts", P.TimestampProperty())])
+    class C01Obj20(object):
+        pass
+
+    @stix2.v21.CustomObservable("x-verif-c01sco", [("prop_str", P.StringProperty(required=True)), ("prop_int", P.IntegerProperty()), ("prop_float", P.FloatProperty())], ["prop_str"])
+    class C01Sco(object):
+        pass
+
+    @stix2.v21.CustomMarking("x-verif-c01mark", [("level", P.IntegerProperty(required=True)), ("note", P.StringProperty())])
+    class C01Mark(object):
+        pass
+
+    @stix2.v21.CustomExtension("x-verif-c01-ext", [("ext_a", P.StringProperty(required=True)), ("ext_b", P.IntegerProperty())])
+    class C01Ext(object):
+        pass
+
+    @stix2.v21.CustomExtension(TOPLEVEL_EXT_ID, [("toplevel_a", P.StringProperty()), ("toplevel_b", P.IntegerProperty())])
+    class C01TopExt(object):
+        extension_type = "toplevel-property-extension"
+    _registered[0] = True
+
+
 def build(case):
     """Returns (obj, exc, how)."""
     import stix2
     from stix2 import registry
+    ensure_custom()
     ver, doc = case["ver"], case["doc"]
     src = case["source"]
     allow_custom = bool(case.get("custom")) or case.get("allow_custom", False)
@@ -116,7 +157,8 @@ def build(case):
     # constructed: class from the registry, python-native values, defaults left to the library
     t = full["type"]
     cls = registry.class_for_type(t, ver, "objects") or registry.class_for_type(t, ver, "observables")
-    kw = to_native(full, ver, M.get(ver).class_for_type(t) or M.get(ver).observables[t], case.get("native", "naive"))
+    mcls = M.get(ver).class_for_type(t) or M.get(ver).observables.get(t)
+    kw = to_native(full, ver, mcls, case.get("native", "naive")) if mcls else dict(full)
     for k in case.get("drop", []):
         kw.pop(k, None)
     kw.pop("type", None)
@@ -146,6 +188,8 @@ def expected_order(obj_json, ver, custom_names):
     t = obj_json.get("type")
     m = M.get(ver)
     cname = m.class_for_type(t) or m.observables.get(t)
+    if cname is None:
+        return None, None       # harness-registered custom type: its property order is not specified anywhere
     spec = [k for k in m.props(cname) if k in obj_json]
     rest = [k for k in obj_json if k not in m.props(cname)]
     return spec, rest
@@ -161,7 +205,7 @@ def check_case(case):
     if isinstance(obj, dict):
         return None
     has_custom = bool(getattr(obj, "has_custom", False))
-    pairs = default_pairs(ver) | default_pairs("2.0" if ver == "2.1" else "2.1")
+    pairs = default_pairs(ver) | default_pairs("2.0" if ver == "2.1" else "2.1") | {("prop_bool", "false")}   # + the harness type's own default
     base_text, exc = core.guarded(obj.serialize)
     if exc is not None:
         return [("serialize-crash:%s" % type(exc).__name__, "serialize() raised %s on %s" % (core.fmt_exc(exc), core.short(case["doc"], 400)))]
@@ -215,11 +259,19 @@ def check_case(case):
         # (2) byte-for-byte
         t2, exc = core.guarded(p.serialize, **kw)
         if exc is not None or t2 != text:
-            fails.append(("reserialize-differs", "second serialization differs (%s): %s vs %s" % (kw, core.short(t2, 300), core.short(text, 300))))
+            sub2 = ""
+            try:
+                if json.loads(t2) == json.loads(text) and case.get("toplevel_ext"):
+                    sub2 = ":toplevel-extension-order"
+            except (ValueError, TypeError):
+                pass
+            fails.append(("reserialize-differs" + sub2, "second serialization differs (%s): %s vs %s" % (kw, core.short(t2, 300), core.short(text, 300))))
         # (5) pretty: specification order of the top-level properties
         if o["pretty"]:
             keys = list(json.loads(text, object_pairs_hook=lambda kv: kv) and [k for k, _ in json.loads(text, object_pairs_hook=lambda kv: kv)])
             spec, rest = expected_order(j, ver, None)
+            if spec is None:
+                continue
             got_spec = [k for k in keys if k in spec]
             if got_spec != spec:
                 fails.append(("pretty-order:spec", "pretty key order %s, specification order %s" % (got_spec, spec)))
@@ -245,7 +297,74 @@ custom_name = st.sampled_from(["x_foo", "x_bar", "a_custom", "zzz", "x_0", "foo_
 
 
 @st.composite
+def registered_custom_case(draw):
+    kind = draw(st.sampled_from(["obj21", "obj20", "sco", "marking", "ext", "toplevel-ext"]))
+    ts = lambda ver, prec="any": draw(G.timestamp(ver, {"precision": prec}, {"ts_max_digits": 6}))
+    txt = lambda: draw(G.string_value({}))
+    uid = lambda: str(draw(st.uuids(version=4)))
+    ver = "2.1"
+    if kind == "obj21":
+        doc = {"type": "x-verif-c01obj", "spec_version": "2.1", "id": "x-verif-c01obj--" + uid(), "created": "2020-01-01T00:00:00.000Z",
+               "modified": "2020-01-02T00:00:00.000Z", "prop_str": txt()}
+        if draw(st.booleans()):
+            doc["prop_int"] = draw(st.integers(-2 ** 63, 2 ** 63))
+        if draw(st.booleans()):
+            doc["prop_float"] = draw(V.any_finite_float.filter(lambda f: abs(f) < 1e300))
+        if draw(st.booleans()):
+            doc["prop_ts"] = ts("2.1")
+        if draw(st.booleans()):
+            doc["prop_list"] = draw(st.lists(V.mixed_text(2), min_size=1, max_size=3))
+        if draw(st.booleans()):
+            doc["prop_dict"] = draw(G.dictionary_value("2.1", {}))
+        if draw(st.booleans()):
+            doc["prop_bool"] = draw(st.booleans())
+        if draw(st.booleans()):
+            doc["labels"] = ["l"]
+    elif kind == "obj20":
+        ver = "2.0"
+        doc = {"type": "x-verif-c01obj20", "id": "x-verif-c01obj20--" + uid(), "created": "2020-01-01T00:00:00.000Z", "modified": "2020-01-02T00:00:00.000Z",
+               "prop_str": txt()}
+        if draw(st.booleans()):
+            doc["prop_ts"] = ts("2.0")
+        if draw(st.booleans()):
+            doc["prop_int"] = draw(st.integers(-5, 10 ** 12))
+    elif kind == "sco":
+        doc = {"type": "x-verif-c01sco", "spec_version": "2.1", "id": "x-verif-c01sco--" + uid(), "prop_str": txt()}
+        if draw(st.booleans()):
+            doc["prop_float"] = draw(V.any_finite_float.filter(lambda f: abs(f) < 1e300))
+        if draw(st.booleans()):
+            doc.pop("id")
+    elif kind == "marking":
+        doc = {"type": "marking-definition", "spec_version": "2.1", "id": "marking-definition--" + uid(), "created": ts("2.1", "millisecond"),
+               "definition_type": "x-verif-c01mark", "definition": {"level": draw(st.integers(0, 9))}}
+        if draw(st.booleans()):
+            doc["definition"]["note"] = txt()
+    elif kind == "ext":
+        doc = {"type": "file", "spec_version": "2.1", "id": "file--" + uid(), "name": txt(), "extensions": {"x-verif-c01-ext": {"ext_a": txt()}}}
+        if draw(st.booleans()):
+            doc["extensions"]["x-verif-c01-ext"]["ext_b"] = draw(st.integers(0, 2 ** 40))
+    else:
+        doc = {"type": "identity", "spec_version": "2.1", "id": "identity--" + uid(), "created": "2020-01-01T00:00:00.000Z", "modified": "2020-01-02T00:00:00.000Z",
+               "name": txt(), "extensions": {TOPLEVEL_EXT_ID: {"extension_type": "toplevel-property-extension"}}}
+        if draw(st.booleans()):
+            doc["toplevel_a"] = txt()
+        if draw(st.booleans()):
+            doc["toplevel_b"] = draw(st.integers(0, 99))
+    case = {"ver": ver, "doc": doc, "shape": "registered-custom:" + kind, "allow_custom": False,
+            "source": draw(st.sampled_from(["parsed", "parsed-text", "constructed"]))}
+    if case["source"] == "constructed":
+        case["native"] = "text"
+        case["drop"] = []
+    k = draw(st.integers(3, 6))
+    idx = draw(st.lists(st.integers(0, len(OPTSETS) - 1), min_size=k, max_size=k, unique=True))
+    case["optsets"] = CORNERS + [OPTSETS[i] for i in idx]
+    return case
+
+
+@st.composite
 def case_strategy(draw):
+    if draw(st.integers(0, 7)) == 0:
+        return draw(registered_custom_case())
     ver = draw(st.sampled_from(["2.0", "2.1"]))
     opts = {"ts_max_digits": 6, "selectors": "any", "max_optional": 6}
     shape = draw(st.sampled_from(["random", "random", "minimal", "maximal"]))
